@@ -289,5 +289,7 @@ def run(prog: Program) -> Results:
     for fnd in sub.findings:
         if fnd.rule == "R-C04-3":
             res.add("R-C09-5", fnd.key, fnd.where, fnd.message)
+    from sa.rules import cursor
+    cursor.check(prog, res, "R-C09-7", ("cli/manipulations.py",), 4)
     res.assumptions = ["contents of the other layers' text and name shadowing across layers are runtime data"]
     return res
